@@ -14,6 +14,7 @@ mod c06;
 mod c10;
 mod c17;
 mod c16;
+mod c14;
 mod jsonmut;
 
 use std::collections::HashMap;
@@ -63,6 +64,7 @@ fn main() {
         "c10" => c10::run(&o),
         "c17" => c17::run(&o),
         "c16" => c16::run(&o),
+        "c14" => c14::run(&o),
         "c09" => c01::run_c09(&o),
         other => {
             eprintln!("unknown stream {other}");
